@@ -20,9 +20,17 @@ import (
 // sorted map keys, omitempty, HTML escaping. Errors mirror json.UnsupportedTypeError.
 
 type jsonEnc struct {
-	fr    *frame
-	out   []value
-	depth int
+	fr        *frame
+	out       []value
+	depth     int
+	noHTMLEsc bool // json.Encoder.SetEscapeHTML(false)
+}
+
+// jsonEncoder models *json.Encoder.
+type jsonEncoder struct {
+	w              iface
+	prefix, indent string
+	escapeHTML     bool
 }
 
 type jsonUnsupported struct{ msg string }
@@ -47,7 +55,7 @@ func (e *jsonEnc) str(v value) {
 					e.ws(`\r`)
 				case b == '\t':
 					e.ws(`\t`)
-				case b < 0x20 || b == '<' || b == '>' || b == '&':
+				case b < 0x20 || (!e.noHTMLEsc && (b == '<' || b == '>' || b == '&')):
 					e.ws(`\u00` + string([]byte{jsonHex[b>>4], jsonHex[b&0xF]}))
 				default:
 					e.out = append(e.out, b)
@@ -69,8 +77,10 @@ func (e *jsonEnc) str(v value) {
 			i += w
 		case *Sym:
 			t := b.T
-			special := sym.Or(sym.Lt(t, sym.Int(0x20)), sym.Le(sym.Int(0x80), t), sym.Eq(t, sym.Int('"')), sym.Eq(t, sym.Int('\\')),
-				sym.Eq(t, sym.Int('<')), sym.Eq(t, sym.Int('>')), sym.Eq(t, sym.Int('&')))
+			special := sym.Or(sym.Lt(t, sym.Int(0x20)), sym.Le(sym.Int(0x80), t), sym.Eq(t, sym.Int('"')), sym.Eq(t, sym.Int('\\')))
+			if !e.noHTMLEsc {
+				special = sym.Or(special, sym.Eq(t, sym.Int('<')), sym.Eq(t, sym.Int('>')), sym.Eq(t, sym.Int('&')))
+			}
 			if !cx.Branch(special) {
 				e.out = append(e.out, b)
 				i++
@@ -80,7 +90,7 @@ func (e *jsonEnc) str(v value) {
 				Unsupported("json: symbolic non-ASCII byte")
 			}
 			c := byte(concretizeInt(b, "json string escape", 256))
-			tmp := &jsonEnc{}
+			tmp := &jsonEnc{noHTMLEsc: e.noHTMLEsc}
 			tmp.str(string([]byte{c}))
 			e.out = append(e.out, tmp.out[1:len(tmp.out)-1]...)
 			i++
@@ -404,6 +414,10 @@ func jsonIndent(src []value, prefix, indent string) []value {
 }
 
 func jsonMarshalModel(fr *frame, arg value, indent bool, prefix, ind string) (res value) {
+	return jsonMarshalModelOpt(fr, arg, indent, prefix, ind, true)
+}
+
+func jsonMarshalModelOpt(fr *frame, arg value, indent bool, prefix, ind string, escapeHTML bool) (res value) {
 	i := arg.(iface)
 	defer func() {
 		if r := recover(); r != nil {
@@ -414,7 +428,7 @@ func jsonMarshalModel(fr *frame, arg value, indent bool, prefix, ind string) (re
 			panic(r)
 		}
 	}()
-	e := &jsonEnc{fr: fr}
+	e := &jsonEnc{fr: fr, noHTMLEsc: !escapeHTML}
 	if i.t == nil {
 		e.ws("null")
 	} else {
@@ -429,6 +443,39 @@ func jsonMarshalModel(fr *frame, arg value, indent bool, prefix, ind string) (re
 
 func init() {
 	reg("encoding/json.Marshal", func(fr *frame, a []value) value { return jsonMarshalModel(fr, a[0], false, "", "") })
+	encArg := func(v value) *jsonEncoder { return (*v.(*value)).(*jsonEncoder) }
+	reg("encoding/json.NewEncoder", func(fr *frame, a []value) value {
+		var cell value = &jsonEncoder{w: a[0].(iface), escapeHTML: true}
+		return &cell
+	})
+	reg("(*encoding/json.Encoder).SetEscapeHTML", func(fr *frame, a []value) value {
+		encArg(a[0]).escapeHTML = a[1].(bool)
+		return nil
+	})
+	reg("(*encoding/json.Encoder).SetIndent", func(fr *frame, a []value) value {
+		p, ok1 := a[1].(string)
+		in, ok2 := a[2].(string)
+		if !ok1 || !ok2 {
+			Unsupported("json.Encoder.SetIndent with symbolic prefix/indent")
+		}
+		e := encArg(a[0])
+		e.prefix, e.indent = p, in
+		return nil
+	})
+	reg("(*encoding/json.Encoder).Encode", func(fr *frame, a []value) value {
+		e := encArg(a[0])
+		res := jsonMarshalModelOpt(fr, a[1], e.prefix != "" || e.indent != "", e.prefix, e.indent, e.escapeHTML).(tuple)
+		if ei := res[1].(iface); ei.t != nil {
+			return res[1]
+		}
+		out := append(append([]value(nil), res[0].([]value)...), uint8('\n'))
+		m := findMethod(fr.i, e.w.t, "Write")
+		if m == nil {
+			Unsupported("json.Encoder over %s", e.w.t)
+		}
+		wres := call(fr.i, fr, fr.callpos, m, []value{e.w.v, out}).(tuple)
+		return wres[1]
+	})
 	reg("encoding/json.MarshalIndent", func(fr *frame, a []value) value {
 		p, ok1 := a[1].(string)
 		in, ok2 := a[2].(string)
